@@ -1,7 +1,7 @@
 """C17 — topic aliases."""
 
 PROP = {'areas': [{'area': 'c17r', 'corpus': ['corpus/C17/resolver.txt'], 'quick': 12000, 'thorough': 400000},
-           {'area': 'engine', 'corpus': [], 'extra': ['100'], 'only_prop': 'C17', 'quick': 12000, 'thorough': 1000000, 'tie_fields': ['out', 'ev', 'outcome']}],
+           {'area': 'engine', 'corpus': [], 'extra': ['100'], 'only_prop': 'C17', 'quick': 12000, 'thorough': 2000000, 'tie_fields': ['out', 'ev', 'outcome']}],
  'coq_target': 'Properties/C17.vo',
  'modelled': 'alias.rs: NullOutboundAliasResolver, ManualOutboundAliasResolver (including `alias_value < maximum`), LruOutboundAliasResolver (after fix '
              '10d5c82; `(len + 1) as u16`, panic site as Panic 40) and InboundAliasResolver; the lru crate as a most-recently-used-first association list '
